@@ -698,7 +698,7 @@ def run(ctx: vlib.Ctx):
             ctx.not_shown("coqchk VerifProps.C05_errors/C05_typed", log[-800:])
 
     rng = ctx.rng
-    n_schemas = ctx.budget(140, 2000)
+    n_schemas = ctx.budget(140, 1500)
     n_inputs = ctx.budget(16, 24)
     corr_budget = ctx.budget(500, 12000)
 
@@ -861,7 +861,7 @@ def run(ctx: vlib.Ctx):
 
         # ---- type level: error-faithful typed unpackers (ErrsTy.ue) vs BasicDecoder / from_dict
         from harness.props import c05_typed
-        tcases, tbad, tlog = c05_typed.run(ctx, ctx.budget(45, 500), ctx.budget(2, 3))
+        tcases, tbad, tlog = c05_typed.run(ctx, ctx.budget(45, 360), ctx.budget(2, 3))
         if tbad is None:
             ctx.correspondence("c05_typed", len(tcases), -1, tlog)
             ctx.not_shown("correspondence c05_typed", tlog)
@@ -874,7 +874,7 @@ def run(ctx: vlib.Ctx):
         ctx.count(n=len(tcases))
         # ---- Union / Literal field positions and codec roots over the typed grammar (ErrsX.uex / uex_root)
         from harness.props import c05_xtyped
-        xcases, xbad, xlog = c05_xtyped.run(ctx, ctx.budget(40, 400), ctx.budget(2, 3))
+        xcases, xbad, xlog = c05_xtyped.run(ctx, ctx.budget(40, 160), ctx.budget(2, 3))
         if xbad is None:
             ctx.correspondence("c05_xtyped", len(xcases), -1, xlog)
             ctx.not_shown("correspondence c05_xtyped", xlog)
